@@ -10,10 +10,13 @@
 (***************************************************************************)
 EXTENDS SqlFlat, Sources, Json
 
-CONSTANTS MaxDepth, SrcSel, EmitPaths
+CONSTANTS MaxDepth, SrcSel, EmitPaths, WithAlias     \* WithAlias: explicit alias() moves and the marker search of pipe/pipeable.py check_subquery
 
-VARIABLES t, q, c, nid, steps, trace, src, reported
-vars == <<t, q, c, nid, steps, trace, src, reported>>
+(* al: the most recent explicit alias() not yet shadowed by a SubqueryMarker: <<>> or <<[t |-> table at the alias, ms |-> verbs applied since]>> *)
+(* ck: column kinds as recorded in the Cache; uk: kinds carried by the Col objects the user holds (= kind at creation, never  *)
+(* reset); marked: a SubqueryMarker has been inserted on this path.  t.fk stays the TRUE kind (what SQL's evaluation order sees) *)
+VARIABLES t, q, c, nid, steps, trace, src, reported, al, ck, uk, marked
+vars == <<t, q, c, nid, steps, trace, src, reported, al, ck, uk, marked>>
 
 Moves(tt) ==
     LET iv == VisOfTy(tt, "int")
@@ -44,6 +47,7 @@ Moves(tt) ==
         \o (IF fresh("n") THEN <<MSummarize(1, <<KV("n", Len0)>>)>> ELSE <<>>)
         \o MapS(s, LAMBDA cc : MSummarize(1, <<KV("z", Agg("max", Col(cc)))>>))
         \o (IF Len(tt.vis) >= 2 THEN <<MDrop(1, <<Col(tt.vis[1])>>)>> ELSE <<>>)
+        \o (IF WithAlias /\ (al = <<>> \/ al[1].ms # <<>>) THEN <<MAlias(1, "al", TRUE)>> ELSE <<>>)
 
 ApplyOn(tt, m, n) ==
     CASE m.v = "mutate"     -> Mutate(tt, m.kv, n)
@@ -56,43 +60,83 @@ ApplyOn(tt, m, n) ==
       [] m.v = "summarize"  -> Summarize(tt, m.kv, n)
 
 NewIds(m) == IF m.v \in {"mutate", "summarize"} THEN Len(m.kv) ELSE 0
-AllE(tt) == [tt EXCEPT !.fk = [x \in Scope(tt) |-> "e"]]      \* what a SubqueryMarker does to the column kinds
+AllE(tt) == [tt EXCEPT !.fk = [x \in Scope(tt) |-> "e"], !.cst = {}]      \* what a SubqueryMarker does to the column kinds (and const-ness)
+
+(* check_subquery: the marker is put at the most recent alias and the verbs applied since are re-accumulated above it *)
+RECURSIVE Refold(_, _, _)
+Refold(st, ms, i) ==      \* st = [t, q, c]
+    IF i > Len(ms) THEN st
+    ELSE LET m == ms[i].m
+             r == ApplyOn(st.t, m, ms[i].nid)
+         IN Refold([t |-> r.t, q |-> Acc(st.q, m, ms[i].nid, r.t), c |-> CsUpdate(st.c, st.t, m)], ms, i + 1)
+AboveAlias == LET b == AllE(al[1].t) IN Refold([t |-> b, q |-> Q0(b), c |-> Cs0], al[1].ms, 1)
 
 Init == /\ src \in DOMAIN SrcSel /\ t = SrcTables[SrcSel[src]]
-        /\ q = Q0(t) /\ c = Cs0 /\ nid = 100 /\ steps = 0 /\ trace = <<>> /\ reported = FALSE
+        /\ q = Q0(t) /\ c = Cs0 /\ nid = 100 /\ steps = 0 /\ trace = <<>> /\ reported = FALSE /\ al = <<>>
+        /\ ck = [x \in Scope(t) |-> "e"] /\ uk = [x \in Scope(t) |-> "e"] /\ marked = FALSE
 
 (* the accumulated query, evaluated in SQL's order, differs from the sequential meaning (where that is determined) *)
 Bad == t.sdef /\ ~SameVisible(FlatEval(q), t)
+
+AllEk(tt) == [x \in Scope(tt) |-> "e"]
+NewKinds(m, ek, n, scope) ==      \* kinds of the columns a mutate / summarize creates, from the kinds its expressions carry
+    IF m.v \in {"mutate", "summarize"} THEN [i \in n..(n + Len(m.kv) - 1) |-> KindFrom(m.kv[i - n + 1].e, ek, m.v = "mutate", scope)]
+    ELSE <<>>
 
 Step == /\ steps < MaxDepth /\ ~Bad
         /\ LET ms == Moves(t) IN
            \E j \in DOMAIN ms :
               LET m    == ms[j]
-                  need == Rq(c, t, m)
-                  tin  == IF need = "" THEN t ELSE AllE(t)
+                  need == Rq2(c, t, ck, uk, m)                                   \* first check: the verb as the user wrote it
+                  A    == IF al # <<>> /\ need # "" THEN AboveAlias ELSE [t |-> t, q |-> q, c |-> c]
+                  \* Cache rebuilt above a marker at the earlier alias: columns below it are element-wise, the verbs re-applied
+                  \* above it still carry the user's Col objects, so the columns they define keep the kind computed from those
+                  ckA  == [x \in Scope(t) |-> IF al # <<>> /\ x \in Scope(al[1].t) THEN "e" ELSE uk[x]]
+                  via  == al # <<>> /\ need # "" /\ Rq2(A.c, A.t, ckA, ckA, m) = ""     \* second check: expressions re-pointed to that Cache
+                  tin  == IF need = "" THEN t ELSE IF via THEN A.t ELSE AllE(t)
+                  qin  == IF need = "" THEN q ELSE IF via THEN A.q ELSE Q0(tin)
+                  cin  == IF need = "" THEN c ELSE IF via THEN A.c ELSE Cs0
+                  ckin == IF need = "" THEN ck ELSE IF via THEN ckA ELSE AllEk(t)
+                  ekin == IF need = "" THEN uk ELSE ckin                           \* a verb that got a marker is re-pointed to the new Cache
                   r    == ApplyOn(tin, m, nid)
-              IN /\ r.ok /\ ~HasUndef(r.t)
-                 /\ t' = r.t
-                 /\ q' = Acc(IF need = "" THEN q ELSE Q0(tin), m, nid, r.t)
-                 /\ c' = CsUpdate(IF need = "" THEN c ELSE Cs0, tin, m)
-                 /\ nid' = nid + NewIds(m)
-                 /\ trace' = Append(trace, [m |-> m, subquery |-> need])
+                  nk   == NewKinds(m, ekin, nid, Scope(t))
+              IN IF m.v = "alias"
+                 THEN /\ al' = <<[t |-> t, ms |-> <<>>]>>
+                      /\ trace' = Append(trace, [m |-> m, subquery |-> "", via |-> FALSE])
+                      /\ UNCHANGED <<t, q, c, nid, ck, uk, marked>>
+                 ELSE /\ r.ok /\ ~HasUndef(r.t)
+                      /\ (need # "" /\ ~via) => Rq2(Cs0, AllE(t), AllEk(t), AllEk(t), m) = ""      \* alias() directly before the verb always unblocks it
+                      /\ t' = r.t
+                      /\ q' = Acc(qin, m, nid, r.t)
+                      /\ c' = CsUpdate(cin, tin, m)
+                      /\ nid' = nid + NewIds(m)
+                      /\ ck' = [x \in Scope(r.t) |-> IF x \in DOMAIN nk THEN nk[x] ELSE ckin[x]]
+                      /\ uk' = [x \in DOMAIN uk \cup DOMAIN nk |-> IF x \in DOMAIN nk THEN nk[x] ELSE uk[x]]
+                      /\ marked' = (marked \/ need # "")
+                      /\ trace' = Append(trace, [m |-> m, subquery |-> IF via THEN "" ELSE need, via |-> via])
+                      /\ al' = IF need # "" THEN <<>>
+                               ELSE IF al # <<>> THEN <<[al[1] EXCEPT !.ms = Append(@, [m |-> m, nid |-> nid])]>> ELSE al
         /\ steps' = steps + 1
         /\ UNCHANGED <<src, reported>>
+
+(* as long as no marker was inserted the Cache kinds are the true kinds (the two derivations agree) *)
+KindsAgree == ~marked => \A x \in Scope(t) : ck[x] = t.fk[x]
+(* the recorded kinds are never less conservative than the true ones *)
+KindsConservative == \A x \in Scope(t) : (t.fk[x] # "e") => (ck[x] # "e")
 
 (* every counterexample is emitted (not only the first): a prediction about the code that is then replayed on SQLite *)
 Report == /\ Bad /\ ~reported
           /\ PrintT(ToJson([srcname |-> SrcTables[SrcSel[src]].name, moves |-> [i \in DOMAIN trace |-> trace[i].m],
-                            subquery |-> [i \in DOMAIN trace |-> trace[i].subquery]]))
+                            subquery |-> [i \in DOMAIN trace |-> trace[i].subquery], via |-> [i \in DOMAIN trace |-> trace[i].via]]))
           /\ reported' = TRUE
-          /\ UNCHANGED <<t, q, c, nid, steps, trace, src>>
+          /\ UNCHANGED <<t, q, c, nid, steps, trace, src, al, ck, uk, marked>>
 
 (* conformance of the transcribed catalogue: every explored verb order with the decision Rq takes at each step, replayed on SQLite *)
 Finish == /\ EmitPaths /\ steps = MaxDepth /\ ~Bad /\ ~reported
           /\ PrintT(ToJson([srcname |-> SrcTables[SrcSel[src]].name, moves |-> [i \in DOMAIN trace |-> trace[i].m],
-                            subquery |-> [i \in DOMAIN trace |-> trace[i].subquery], path |-> TRUE]))
+                            subquery |-> [i \in DOMAIN trace |-> trace[i].subquery], via |-> [i \in DOMAIN trace |-> trace[i].via], path |-> TRUE, sdef |-> (t.sdef /\ t.pdef)]))
           /\ reported' = TRUE
-          /\ UNCHANGED <<t, q, c, nid, steps, trace, src>>
+          /\ UNCHANGED <<t, q, c, nid, steps, trace, src, al, ck, uk, marked>>
 
 Next == Step \/ Report \/ Finish
 
@@ -100,6 +144,6 @@ FlatCorrect == ~Bad
 
 (* verbs of the never-needs class are never routed through a subquery: element-wise mutate / filter, select, rename, arrange, *)
 (* one grouped summarize, a final slice_head                                                                                *)
-View == IF EmitPaths THEN <<t, q, c, nid, steps, reported, trace>> ELSE <<t, q, c, nid, steps, reported>>
+View == IF EmitPaths THEN <<t, q, c, nid, steps, reported, trace, al, ck, uk>> ELSE <<t, q, c, nid, steps, reported, al, ck, uk>>
 
 =============================================================================
